@@ -140,7 +140,9 @@ def _convolve_model_dir_2(model_dir, filters, overwrite=False, memmap=True):
 
     par_table = load_parameter_table(model_dir)
 
-    if not np.all(par_table['MODEL_NAME'] == sed_cube.names):
+    # (the parameter file may list the models in another order than the cube;
+    # the convolved fluxes follow the cube)
+    if sorted(np.char.strip(par_table['MODEL_NAME'])) != sorted(np.char.strip(sed_cube.names)):
         raise ValueError("Model names in SED cube and parameter file do not match")
 
     log.info("{0} SEDs found in {1}".format(sed_cube.n_models, model_dir))
